@@ -116,7 +116,7 @@ func runScenario(sc scenario) (string, string) {
 	go func() { wg.Wait(); close(done) }()
 	select {
 	case <-done:
-	case <-time.After(20 * time.Second):
+	case <-time.After(120 * time.Second):
 		buf := make([]byte, 1<<20)
 		n := runtime.Stack(buf, true)
 		os.WriteFile("/tmp/c07_hang.txt", buf[:n], 0o644)
@@ -251,8 +251,15 @@ func runWriterContract(r *vh.Rng) (string, string) {
 	frames := make([][]byte, n)
 	start := make([]time.Duration, n)
 	cancel := make([]time.Duration, n)
+	sized := r.Intn(3) == 0
+	if sized {
+		cls += "/sizes"
+	}
 	for i := range frames {
 		l := 2 + r.Intn(40)
+		if sized && r.Intn(2) == 0 {
+			l = 2 + drawTotal(r, []string{"small", "edge", "edge", "edge", "mid", "huge"}[r.Intn(6)])
+		}
 		frames[i] = make([]byte, l)
 		for j := range frames[i] {
 			frames[i][j] = byte(i + 1)
@@ -322,16 +329,56 @@ func main() {
 	}
 	r := vh.NewRng(vh.EnvSeed())
 	out := vh.NewOut(path)
+	var deferred []schedCase
 	mult := 1
 	if tier == "thorough" {
 		mult = 10
+	}
+	// size templates: a frame of every size class held mid-frame while others are started / the flush timer fires.
+	// They come first: they are deterministic (no draw from the PRNG) and a writer with a size-dependent path shows
+	// up here as a rejected byte stream, ahead of the many model-vs-code lines it also breaks (the check keeps the
+	// first 50 disagreements only).
+	bigs := []int{100, 4095, 4096, 4097, 8191, 8192, 16384, 65537, 1 << 20}
+	ti := 0
+	for ci := 0; ci < 4; ci++ {
+		conf := sconf{proto: []int{4, 2, 3, 4}[ci], coal: ci%2 == 1, wt: ci/2 == 1}
+		hl := memcluster.HeaderLen(conf.proto)
+		for _, big := range bigs {
+			orders := [][]int{{big, 90, 0}, {60, big, 0}, {big, big + 1, 70}}
+			for oi, totals := range orders {
+				holds := []int{0, 1, hl, 4095, 4096, totals[0] - 1}
+				for hi, hold := range holds {
+					ti++
+					if tier != "thorough" && big != 4096 && (hi+oi+ci)%3 != 0 { // quick: every hold position for 4096, a third of them for the others
+						continue
+					}
+					kind := "ok"
+					if ti%5 == 0 && hold > 0 {
+						kind = errKinds[(ti/5)%len(errKinds)]
+					}
+					sop, ans, top, cls := runSizeTemplate(conf, totals, hold, kind)
+					if strings.HasPrefix(sop, "fatal") {
+						fmt.Fprintln(os.Stderr, "c07:", sop)
+						os.Exit(3)
+					}
+					out.Case(top, "accept", "trace2", true)
+					if sop != "" {
+						deferred = append(deferred, schedCase{sop, ans, cls})
+					}
+				}
+			}
+		}
 	}
 	for i := 0; i < 4000*mult; i++ {
 		n := 1 + r.Intn(5)
 		lens := make([]string, n)
 		sum := 0
+		bigBatch := i%3 == 2 // a third of the batches mix buffers of the size classes of the other tiers
 		for j := range lens {
 			l := 1 + r.Intn(40)
+			if bigBatch && r.Intn(2) == 0 {
+				l = drawTotal(r, []string{"small", "edge", "edge", "mid", "huge"}[r.Intn(5)]) + 1
+			}
 			sum += l
 			lens[j] = fmt.Sprint(l)
 		}
@@ -344,8 +391,15 @@ func main() {
 				lim += l
 			}
 		}
+		if bigBatch && r.Intn(3) == 0 { // the vectored write stopped next to a 4 KiB multiple
+			lim = (1+r.Intn(sum/4096+1))*4096 - 1 + r.Intn(3)
+		}
 		op := fmt.Sprintf("attr %d %s", lim, strings.Join(lens, " "))
-		out.Case(op, exec(op), fmt.Sprintf("attr/%d", n), true)
+		cls := fmt.Sprintf("attr/%d", n)
+		if bigBatch {
+			cls += "/sizes"
+		}
+		out.Case(op, exec(op), cls, true)
 	}
 	runs := 60 * mult
 	for i := 0; i < runs; i++ {
@@ -354,13 +408,20 @@ func main() {
 			sc.coalesce = time.Duration(50+r.Intn(300)) * time.Microsecond
 		}
 		total := 0
+		sized := i%2 == 1 // every other scenario draws frame sizes from the classes (large and small writers together)
 		for j := 0; j < sc.writers; j++ {
 			sz := r.Intn(60)
+			if sized && r.Intn(2) == 0 {
+				sz = padFor(sc.proto, j+1, drawTotal(r, []string{"small", "edge", "edge", "mid", "mid", "huge"}[r.Intn(6)]))
+			}
 			sc.sizes = append(sc.sizes, sz)
 			sc.cancel = append(sc.cancel, r.Intn(8) == 0)
 			total += 30 + sz
 		}
 		sc.cutOffset = int64(r.Intn(total + 10))
+		if sized && r.Intn(3) == 0 { // next to a 4 KiB multiple of the request stream
+			sc.cutOffset = int64((1+r.Intn(total/4096+1))*4096 - 1 + r.Intn(3))
+		}
 		if r.Intn(6) == 0 {
 			sc.cutOffset = -1
 		}
@@ -375,10 +436,27 @@ func main() {
 		if sc.coalesce > 0 {
 			co = "coalesce"
 		}
+		if sized {
+			co += "/sizes"
+		}
 		out.Case(op, "accept", "trace/"+co+"/"+cls, true)
 	}
 	for i := 0; i < 150*mult; i++ {
 		op, cls := runWriterContract(r)
+		out.Case(op, "accept", cls, true)
+	}
+	// vectored-write tier: the real writers over loopback TCP (writev path of net.Buffers.WriteTo)
+	extra := map[string]interface{}{}
+	for i := 0; i < 24*mult; i++ {
+		op, cls := runWritev(r)
+		if strings.HasPrefix(op, "fatal") {
+			fmt.Fprintln(os.Stderr, "c07:", op)
+			os.Exit(3)
+		}
+		if op == "" { // no loopback TCP here: the draws were made (same PRNG stream), the tier is skipped
+			extra["writev_tier_skipped"] = cls
+			continue
+		}
 		out.Case(op, "accept", cls, true)
 	}
 	// scheduling tier: both writers x write timeout {0, >0} x protocol, scripted transport
@@ -393,10 +471,10 @@ func main() {
 			fmt.Fprintln(os.Stderr, "c07:", sop)
 			os.Exit(3)
 		}
-		if sop != "" {
-			out.Case(sop, ans, cls, true)
-		}
 		out.Case(top, "accept", "trace2", true)
+		if sop != "" {
+			deferred = append(deferred, schedCase{sop, ans, cls})
+		}
 	}
 	// systematic templates: cut position x error kind x which frame of the three outstanding ones.
 	// quick: the offsets around the frame and header boundaries; thorough: every byte offset.
@@ -434,16 +512,62 @@ func main() {
 					if flen < 0 {
 						flen = templateFrameLen(top, cf)
 					}
-					if sop != "" {
-						out.Case(sop, ans, cls, true)
-					}
 					out.Case(top, "accept", "trace2", true)
+					if sop != "" {
+						deferred = append(deferred, schedCase{sop, ans, cls})
+					}
 				}
 			}
 		}
 	}
-	out.Close(nil)
+	// the cut templates again with LARGE frames outstanding: cuts at the 4 KiB boundaries inside them and at their ends
+	for ci := 0; ci < 4; ci++ {
+		conf := sconf{proto: []int{4, 2, 3, 4}[ci], coal: ci%2 == 1, wt: ci/2 == 1}
+		hl := memcluster.HeaderLen(conf.proto)
+		for bi, big := range []int{4096, 65537} {
+			tot := [][]int{{big, 120, 4097, 30}, {4095, big, 64, 30}}[bi]
+			conf.sizes = nil
+			for i, t := range tot {
+				conf.sizes = append(conf.sizes, padFor(conf.proto, i+1, t))
+			}
+			for cf := 1; cf <= 3; cf++ {
+				offs := []int{hl, 4095, 4096, 4097, tot[cf-1] - 1, tot[cf-1]}
+				for oi, o := range offs {
+					if o > tot[cf-1] {
+						continue
+					}
+					kinds := []string{errKinds[(ci+cf+oi)%len(errKinds)]}
+					if tier == "thorough" {
+						kinds = errKinds
+					}
+					for _, kind := range kinds {
+						sop, ans, top, cls, ok := runTemplate(conf, cf, o, kind)
+						if strings.HasPrefix(sop, "fatal") {
+							fmt.Fprintln(os.Stderr, "c07:", sop)
+							os.Exit(3)
+						}
+						if !ok {
+							continue
+						}
+						out.Case(top, "accept", "trace2", true)
+						if sop != "" {
+							deferred = append(deferred, schedCase{sop, ans, cls+"/large"})
+						}
+					}
+				}
+			}
+		}
+	}
+	// the model-vs-code lines come last: the check keeps the first 50 disagreements, and a change of the writers
+	// that breaks the tie on many sched lines must not push a spec-backed disagreement (a concrete failing input)
+	// out of that window
+	for _, d := range deferred {
+		out.Case(d.op, d.ans, d.cls, true)
+	}
+	out.Close(extra)
 }
+
+type schedCase struct{ op, ans, cls string }
 
 // templateFrameLen reads the length of frame `cf` off a trace2 line (pieces are p<id>:<len>:<off>:<n>).
 func templateFrameLen(trace string, cf int) int {
